@@ -4,6 +4,7 @@ import itertools, os, re
 from fractions import Fraction
 
 PROP = "C12"
+SUBCHECKS = ["C12F"]   # Flocq: the f64 repetitiveness decision equals the exact-rational one of the model (props/C12F.v)
 AREAS = ["tuple"]
 THEOREMS = ["tuples_roundtrip", "tuples_injective", "tuples_are_bytes", "rep_decision_exact", "rep_total",
             "ref_segment_roundtrip", "delta_segment_roundtrip", "ref_part_roundtrip", "ref_part_total",
